@@ -202,6 +202,10 @@ func handleLTrim(params internal.HandlerFuncParams) ([]byte, error) {
 	if start < 0 {
 		start = len(list) + start
 	}
+	// If start is still before the first element, start at the first element
+	if start < 0 {
+		start = 0
+	}
 	if end < 0 {
 		end = len(list) + end
 	}
